@@ -193,3 +193,492 @@ def monitor(r):
     if s[4]['execd'] != [0, 1, 2, 3, 4]:
         out.append(f"{tag}: the run after uncache_tasks executed {s[4]['execd']}, not all 5 tasks")
     return out
+
+
+# =================================================================== (RT) round trips through cached_tasks
+"""Round-trip histories (used by C08; the same records are labelled for C03 / C06 / C01 by `rt_monitor`):
+
+    run_tasks(tasks) -> cached_tasks(all types) [a fresh Lab over the same directory in half of the cases]
+      for every listed task: is_cached is true; its cache_key is the key of the entry it was rebuilt from;
+      it equals the task that was run and carries the recorded result_meta
+    mode 'run':     run_tasks(listed) executes nothing, loads every listed task, returns the stored values and adds
+                    no entry; cached_tasks lists the same tasks again; uncache_tasks(listed) empties the storage
+    mode 'uncache': uncache_tasks(listed) empties the storage, is_cached is false for every original task, and
+                    run_tasks(tasks) executes every task again
+
+over tasks of both cache kinds (PickleCache / a second BaseCache subclass) whose parameters hold dicts and
+frozendicts with keys that are NOT in sorted order (at the top level, inside lists / dicts, and in the parameters of
+tasks nested in parameters), enum members (also of classes nested in holder classes) and nested tasks.
+Compared with the Lean `HIST` model on executed / loaded / listed / cached tids and the set of entries after every step."""
+RT_KEYS = ['zeta', 'alpha', 'mid', 'b', 'a', 'Z', '_x', 'é', '10', '9', 'k', 'name', 'x y']
+RT_KINDS = ('round-trip',)
+
+
+def rt_enums():
+    import conftasks as C
+    import conftasks2 as C2
+    return [C.Variant.SMALL, C.ModelA.Variant.LARGE, C.ModelB.Variant.SMALL, C2.ModelA.Variant.SMALL, C2.Variant.LARGE,
+            C.Depth.DEEP, C.TextSets.TEST]
+
+
+def rt_scalar(rng):
+    k = rng.randrange(7)
+    if k == 0:
+        return ['n']
+    if k == 1:
+        return ['b', rng.random() < 0.5]
+    if k == 2:
+        return ['i', rng.choice([0, 1, -1, 7, 2 ** 40])]
+    if k == 3:
+        return ['f', rng.choice(['0.0', '1.0', '-2.5', '1e-07'])]
+    if k == 4:
+        return ['s', rng.choice(['', 'a', 'train', 'é', 'x y'])]
+    return ['e', rng.randrange(7)]
+
+
+def rt_dict(rng, depth, force_unsorted):
+    n = rng.choice([2, 2, 3, 4]) if force_unsorted else rng.choice([0, 1, 2, 3])
+    keys = rng.sample(RT_KEYS, n)
+    if n >= 2:
+        # insertion order differs from sorted order (mostly: descending or a rotation of the sorted order)
+        for _ in range(10):
+            if keys != sorted(keys):
+                break
+            rng.shuffle(keys)
+        if keys == sorted(keys):
+            keys.reverse()
+    return [rng.choice('dz'), [[k, rt_value(rng, depth + 1)] for k in keys]]
+
+
+def rt_value(rng, depth, force_unsorted=False):
+    if force_unsorted:
+        # an unsorted dict at this level, or one level down inside a list / a nested task's parameter
+        k = rng.randrange(4)
+        if k <= 1 or depth >= 2:
+            return rt_dict(rng, depth, True)
+        if k == 2:
+            items = [rt_value(rng, depth + 1) for _ in range(rng.randrange(0, 2))] + [rt_dict(rng, depth + 1, True)]
+            rng.shuffle(items)
+            return [rng.choice('lu'), items]
+        return ['t', rng.choice('po'), rt_dict(rng, depth + 1, True)]
+    if depth >= 3 or rng.random() < 0.45:
+        return rt_scalar(rng)
+    k = rng.randrange(5)
+    if k == 0:
+        return [rng.choice('lu'), [rt_value(rng, depth + 1) for _ in range(rng.randrange(0, 3))]]
+    if k in (1, 2):
+        return rt_dict(rng, depth, rng.random() < 0.6)
+    if k == 3:
+        return ['t', rng.choice('po'), rt_value(rng, depth + 1)]
+    return rt_scalar(rng)
+
+
+def rt_gen(rng, tier):
+    cases = []
+    for i in range(40 if tier == 'quick' else 600):
+        tops = []
+        for _ in range(rng.choice([1, 2, 2, 3])):
+            v = rt_value(rng, 0, force_unsorted=True)
+            tops.append(['w', v] if rng.random() < 0.25 else ['t', rng.choice('po'), v])
+        cases.append(dict(tops=tops, backend='fork' if i % 5 == 4 else 'serial', mode='uncache' if i % 3 == 2 else 'run',
+                          fresh_lab=bool(i % 2)))
+    return cases
+
+
+def rt_build(case):
+    """(top-level tasks, all tasks by k, direct dependencies per k); k = position in depth-first POST-order, so
+    that a task's dependencies have smaller numbers (as the HIST model's universe expects)"""
+    import conftasks as C
+    from frozendict import frozendict
+    enums = rt_enums()
+    everything, deps = [], []
+
+    def val(s, found):
+        t = s[0]
+        if t == 'n':
+            return None
+        if t in 'bis':
+            return s[1]
+        if t == 'f':
+            return float(s[1])
+        if t == 'e':
+            return enums[s[1]]
+        if t == 'l':
+            return [val(x, found) for x in s[1]]
+        if t == 'u':
+            return tuple(val(x, found) for x in s[1])
+        if t in 'dz':
+            d = {}
+            for k, x in s[1]:
+                d[k] = val(x, found)
+            return d if t == 'd' else frozendict(d)
+        obj = task(s)
+        found.append(obj.k)
+        return obj
+
+    def add(make, direct):
+        k = len(everything)
+        everything.append(make(k))
+        deps.append(sorted(direct))
+        return everything[k]
+
+    def task(s):
+        found = []
+        if s[0] == 'w':
+            v = val(s[1], found)
+            inner = add(lambda k: C.Describe(value=v, k=k), found)
+            return add(lambda k: C.Wrap(inner=inner, k=k), [inner.k])
+        v = val(s[2], found)
+        return add(lambda k: (C.Describe if s[1] == 'p' else C.DescribeJ)(value=v, k=k), found)
+    tops = [task(s) for s in case['tops']]
+    return tops, everything, deps
+
+
+def rt_want(t, canon=False):
+    import conftasks as C
+    return 'Wrap<' + C.reveal(t.inner.value, canon) + '>' if type(t).__name__ == 'Wrap' else C.reveal(t.value, canon)
+
+
+def rt_unsorted(spec):
+    """number of dict / frozendict nodes whose keys are not in sorted order"""
+    if not isinstance(spec, list) or not spec:
+        return 0
+    if spec[0] in ('d', 'z'):
+        keys = [k for k, _ in spec[1]]
+        return int(keys != sorted(keys)) + sum(rt_unsorted(x) for _, x in spec[1])
+    if spec[0] in ('l', 'u'):
+        return sum(rt_unsorted(x) for x in spec[1])
+    if spec[0] in ('t', 'w'):
+        return rt_unsorted(spec[-1])
+    return 0
+
+
+def sk(l):
+    return sorted(l, key=lambda x: (not isinstance(x, int), x if isinstance(x, int) else str(x)))
+
+
+def rt_type_index(t):
+    return {'Describe': 0, 'DescribeJ': 1, 'Wrap': 2}[type(t).__name__]
+
+
+def rt_meta(m):
+    return None if m is None else [m.start.isoformat() if m.start else None, m.duration.total_seconds() if m.duration is not None else None]
+
+
+def rt_run(case, root):
+    """the history on the real code; returns a JSON-able record"""
+    import logging
+    import labtech
+    import conftasks as C
+    from labtech.exceptions import TaskNotFound
+    labtech.logger.setLevel(logging.CRITICAL)
+    d = tempfile.mkdtemp(prefix='rt-', dir=root)
+    log = os.path.join(d, 'exec.log')
+    os.environ['VERIF_HIST_LOG'] = log
+    sd = os.path.join(d, 'store')
+    kw = dict(disable_progress=True, disable_top=True)
+    types = [C.Describe, C.DescribeJ, C.Wrap]
+    tops, everything, deps = rt_build(case)
+    n = len(everything)
+    key_of = {t.cache_key: t.k for t in everything}
+    pos = [0]
+
+    def log_lines():
+        if not os.path.exists(log):
+            return []
+        with open(log, 'rb') as f:
+            f.seek(pos[0])
+            data = f.read()
+        pos[0] += len(data)
+        return [l.split(' ', 2) for l in data.decode().splitlines()]
+
+    def keys_now(lab):
+        return sk((key_of[k] if k in key_of else 'UNKNOWN:' + k) for k in lab._storage.find_keys() if not k.startswith('.'))
+
+    def guarded(f):
+        try:
+            return f()
+        except BaseException as e:
+            return 'raised ' + type(e).__name__ + ': ' + str(e)[:120]
+
+    rec = dict(case=case, n=n, ty=[rt_type_index(t) for t in everything], deps=deps, tops=[t.k for t in tops],
+               want={t.k: rt_want(t) for t in everything}, distinct_keys=len(key_of),
+               unsorted_dicts=sum(rt_unsorted(s) for s in case['tops']))
+    lab = labtech.Lab(storage=sd, runner_backend=case['backend'], max_workers=2)
+    res1 = guarded(lambda: lab.run_tasks(tops, **kw))
+    lines = log_lines()
+    rec['ret1'] = res1 if isinstance(res1, str) else {t.k: res1.get(t, 'MISSING') for t in tops}
+    rec['exec1'] = sorted(int(l[1]) for l in lines if l[0] == 'X')
+    rec['val1'] = {int(l[1]): l[2] for l in lines if l[0] == 'X'}
+    rec['keys1'] = keys_now(lab)
+    rec['meta1'] = {t.k: rt_meta(t.result_meta) for t in everything}
+    if case['fresh_lab']:
+        lab2 = labtech.Lab(storage=sd, runner_backend='serial')
+    else:
+        from labtech.runners import SerialRunnerBackend
+        lab2 = lab
+        lab2.runner_backend = SerialRunnerBackend()
+    listed = guarded(lambda: list(lab2.cached_tasks(types)))
+    if isinstance(listed, str):
+        rec['listed'] = listed
+        return rec
+    # the entry every rebuilt task comes from: what cached_tasks does, key by key
+    came = {}
+    for key in lab2._storage.find_keys():
+        for ty in types:
+            try:
+                x = ty._lt.cache.load_task(lab2._storage, ty, key)
+            except TaskNotFound:
+                continue
+            except BaseException:
+                break
+            came.setdefault(x.cache_key, []).append(key)
+            break
+    rows = []
+    for x in listed:
+        k = getattr(x, 'k', None)
+        orig = everything[k] if isinstance(k, int) and 0 <= k < n else None
+        rows.append(dict(k=k, key=x.cache_key, from_keys=came.get(x.cache_key, []), in_storage=x.cache_key in set(lab2._storage.find_keys()),
+                         cached=guarded(lambda: bool(lab2.is_cached(x))),
+                         # equal: Python ==, same class, and type-exactly the same values (dict insertion order is not compared)
+                         equal=bool(orig is not None and x == orig and type(x) is type(orig) and rt_want(x, True) == rt_want(orig, True)),
+                         orig_key=None if orig is None else orig.cache_key, meta=rt_meta(x.result_meta)))
+    rec['listed'] = rows
+    rec['entry_of_key'] = {k: v for k, v in came.items()}
+    if case['mode'] == 'run':
+        log_lines()
+        res2 = guarded(lambda: lab2.run_tasks(listed, **kw))
+        lines = log_lines()
+        rec['ret2'] = res2 if isinstance(res2, str) else [[x.k, res2.get(x, 'MISSING')] for x in listed]
+        rec['exec2'] = sorted(int(l[1]) for l in lines if l[0] == 'X')
+        rec['loaded2'] = sorted(int(l[1]) for l in lines if l[0] == 'L')
+        rec['keys2'] = keys_now(lab2)
+        rec['raw_keys2'] = len([k for k in lab2._storage.find_keys() if not k.startswith('.')])
+        again = guarded(lambda: list(lab2.cached_tasks(types)))
+        rec['listed_again'] = again if isinstance(again, str) else sk(getattr(x, 'k', None) for x in again)
+        rec['uncache'] = guarded(lambda: lab2.uncache_tasks(listed))
+        rec['keys3'] = keys_now(lab2)
+        rec['cached3'] = [bool(lab2.is_cached(t)) for t in everything]
+        after = guarded(lambda: list(lab2.cached_tasks(types)))
+        rec['listed_after'] = after if isinstance(after, str) else sk(getattr(x, 'k', None) for x in after)
+    else:
+        rec['uncache'] = guarded(lambda: lab2.uncache_tasks(listed))
+        rec['keys3'] = keys_now(lab2)
+        rec['cached3'] = [bool(lab2.is_cached(t)) for t in everything]
+        tops4, everything4, _ = rt_build(case)
+        log_lines()
+        res4 = guarded(lambda: lab2.run_tasks(tops4, **kw))
+        lines = log_lines()
+        rec['ret4'] = res4 if isinstance(res4, str) else {t.k: res4.get(t, 'MISSING') for t in tops4}
+        rec['exec4'] = sorted(int(l[1]) for l in lines if l[0] == 'X')
+        rec['keys4'] = keys_now(lab2)
+    return rec
+
+
+def rt_worker(spec_path, out_path):
+    spec = json.load(open(spec_path))
+    out = []
+    for case in spec['seqs']:
+        try:
+            out.append(rt_run(case, spec['root']))
+        except BaseException:
+            import traceback
+            out.append(dict(case=case, infra=traceback.format_exc()[-800:]))
+    json.dump(out, open(out_path, 'w'), default=str)
+
+
+def rt_monitor(rec):
+    """[(what, [properties whose statement it violates])]"""
+    out = []
+    case = rec['case']
+    n = rec['n']
+    alln = list(range(n))
+    tag = (f"round trip through cached_tasks ({len(case['tops'])} requested / {n} tasks, dict parameters with unsorted keys, "
+           f"first run '{case['backend']}', {'fresh Lab' if case['fresh_lab'] else 'same Lab'})")
+    want = {int(k): v for k, v in rec['want'].items()}
+    if isinstance(rec['ret1'], str) or any(rec['ret1'].get(str(k)) != want[k] for k in rec['tops']):
+        out.append((f"{tag}: the first run_tasks did not return the tasks' own values: {rec['ret1']}", ['C01']))
+        return out
+    if rec['exec1'] != alln:
+        out.append((f"{tag}: the first run_tasks (empty storage) executed {rec['exec1']}, not each of the {n} tasks once", ['C03']))
+        return out
+    if rec['keys1'] != alln:
+        out.append((f"{tag}: after {n} tasks executed successfully the storage holds the entries of {rec['keys1']} (one entry per task expected)", ['C08']))
+    if isinstance(rec['listed'], str):
+        out.append((f"{tag}: cached_tasks {rec['listed']}", ['C08', 'C09']))
+        return out
+    rows = rec['listed']
+    ks = sk(r['k'] for r in rows)
+    if ks != alln or len(rows) != n:
+        out.append((f"{tag}: cached_tasks lists the tasks {[r['k'] for r in rows]} after the tasks {alln} were stored", ['C08', 'C09']))
+    for r in rows:
+        if not r['equal']:
+            out.append((f"{tag}: task {r['k']} listed by cached_tasks is not equal to the task that was run", ['C08', 'C09']))
+        if r['cached'] is not True:
+            out.append((f"{tag}: task {r['k']} was just listed by cached_tasks, but is_cached says {r['cached']} for it "
+                        f"(its cache_key is {r['key']}, it was rebuilt from the entry {r['from_keys']})", ['C08']))
+        if r['from_keys'] != [r['key']]:
+            out.append((f"{tag}: task {r['k']} listed by cached_tasks has the cache_key {r['key']} but was rebuilt from the entry "
+                        f"{r['from_keys']} (the task that was run has {r['orig_key']})", ['C08', 'C07', 'C09']))
+        m1 = rec['meta1'].get(str(r['k']))
+        if r['equal'] and r['meta'] != m1:
+            out.append((f"{tag}: task {r['k']} listed by cached_tasks carries result_meta {r['meta']}, the run recorded {m1}", ['C06', 'C09']))
+    val1 = {int(k): v for k, v in rec['val1'].items()}
+    if case['mode'] == 'run':
+        if isinstance(rec['ret2'], str):
+            out.append((f"{tag}: run_tasks(cached_tasks(...)) {rec['ret2']}", ['C06', 'C09']))
+        else:
+            if rec['exec2']:
+                out.append((f"{tag}: run_tasks(cached_tasks(...)) called run() again for the tasks {rec['exec2']} although every listed task is cached "
+                            "(a task whose result is already cached is loaded instead of executed)", ['C03', 'C06']))
+            for k, v in rec['ret2']:
+                if isinstance(k, int) and k in val1 and v != val1[k]:
+                    out.append((f"{tag}: run_tasks(cached_tasks(...)) returned {v!r} for task {k}; the stored result of its run is {val1[k]!r}", ['C01', 'C06']))
+            if not rec['exec2'] and rec['loaded2'] != ks:
+                out.append((f"{tag}: run_tasks(cached_tasks(...)) loaded the entries of {rec['loaded2']}, listed were {ks}", ['C03']))
+        if rec['keys2'] != rec['keys1'] or rec['raw_keys2'] != len(rec['keys1']):
+            out.append((f"{tag}: run_tasks over the tasks listed by cached_tasks changed the set of entries from {rec['keys1']} to {rec['keys2']} "
+                        f"({rec['raw_keys2']} key directories): a cache hit adds no entry; now one task has two entries", ['C08']))
+        if rec['listed_again'] != ks:
+            out.append((f"{tag}: after run_tasks over the listed tasks cached_tasks lists {rec['listed_again']} (before: {ks})", ['C08']))
+    if rec['uncache'] is not None:
+        out.append((f"{tag}: uncache_tasks(cached_tasks(...)) {rec['uncache']}", ['C08']))
+    if rec['keys3']:
+        out.append((f"{tag}: after uncache_tasks(cached_tasks(...)) over every listed task the storage still holds the entries of {rec['keys3']} "
+                    "(uncache_tasks removes exactly the named entries)", ['C08']))
+    if any(rec['cached3']):
+        out.append((f"{tag}: after uncache_tasks of every listed task is_cached is still true for {[k for k, b in enumerate(rec['cached3']) if b]}", ['C08']))
+    if case['mode'] == 'run' and rec.get('listed_after') not in ([], None):
+        out.append((f"{tag}: after uncache_tasks of every listed task cached_tasks still lists {rec['listed_after']}", ['C08']))
+    if case['mode'] == 'uncache':
+        if rec['exec4'] != alln and not rec['keys3']:
+            out.append((f"{tag}: the run after uncache_tasks of every entry executed {rec['exec4']}, not all of {alln}", ['C08', 'C03']))
+        if rec['keys4'] != alln:
+            out.append((f"{tag}: after the re-run the storage holds the entries of {rec['keys4']}", ['C08']))
+    return out
+
+
+def rt_kind(what):
+    """which alarm a message is, without the case description and without numbers"""
+    import re
+    return re.sub(r'[0-9]+', 'N', what.split('): ', 1)[-1])[:45]
+
+
+def rt_candidates(case):
+    """smaller round-trip cases: fewer requested tasks, a sub-tree in place of a parameter, fewer items, simpler options"""
+    out = []
+    tops = case['tops']
+    for i in range(len(tops)):
+        if len(tops) > 1:
+            out.append(dict(case, tops=tops[:i] + tops[i + 1:]))
+
+    def smaller(s):
+        t = s[0]
+        res = []
+        if t in 'lu':
+            res += [[t, s[1][:i] + s[1][i + 1:]] for i in range(len(s[1]))]
+            res += [x for x in s[1] if x[0] in 'dzlut']
+            for i, x in enumerate(s[1]):
+                res += [[t, s[1][:i] + [y] + s[1][i + 1:]] for y in smaller(x)]
+        elif t in 'dz':
+            res += [[t, s[1][:i] + s[1][i + 1:]] for i in range(len(s[1]))]
+            res += [x for _, x in s[1] if x[0] in 'dzlut']
+            for i, (k, x) in enumerate(s[1]):
+                res += [[t, s[1][:i] + [[k, y]] + s[1][i + 1:]] for y in smaller(x)]
+                if x[0] not in 'ni':
+                    res.append([t, s[1][:i] + [[k, ['i', 0]]] + s[1][i + 1:]])
+        elif t == 't':
+            res += [s[2]] if s[2][0] in 'dzlut' else []
+            res += [['t', s[1], y] for y in smaller(s[2])]
+        return res
+    for i, top in enumerate(tops):
+        if top[0] == 'w':
+            out.append(dict(case, tops=tops[:i] + [['t', 'p', top[1]]] + tops[i + 1:]))
+            subs = [['w', y] for y in smaller(top[1])]
+        else:
+            subs = [y if y[0] == 't' else ['t', top[1], y] for y in smaller(top)]
+        out += [dict(case, tops=tops[:i] + [y] + tops[i + 1:]) for y in subs]
+    if case['backend'] != 'serial':
+        out.append(dict(case, backend='serial'))
+    if case['fresh_lab']:
+        out.append(dict(case, fresh_lab=False))
+    return out
+
+
+def rt_shrink(case, kind, run_cases, rounds=16, deadline=None):
+    """greedy: a smaller case on which the real code still raises the alarm `kind`; `run_cases(cases) -> records`"""
+    cur = case
+    for _ in range(rounds):
+        if deadline is not None and time.time() > deadline:
+            break
+        cands, seen = [], {json.dumps(cur, sort_keys=True)}
+        for c in rt_candidates(cur):
+            key = json.dumps(c, sort_keys=True)
+            if key not in seen:
+                seen.add(key)
+                cands.append(c)
+        cands = cands[:60]
+        if not cands:
+            break
+        recs = run_cases(cands)
+        nxt = next((r['case'] for r in recs if not r.get('infra') and any(rt_kind(w) == kind for w, _ in rt_monitor(r))), None)
+        if nxt is None:
+            break
+        cur = nxt
+    return cur
+
+
+def rt_model_line(rec):
+    lst_ = lambda l: ','.join(str(x) for x in l)
+    n = rec['n']
+    alln = lst_(range(n))
+    ops = [f"R0:1:{lst_(rec['tops'])}", 'C:0,1,2'] + [f'I:{k}' for k in range(n)]
+    if rec['case']['mode'] == 'run':
+        ops += [f'R0:2:{alln}', 'C:0,1,2', f'U:{alln}'] + [f'I:{k}' for k in range(n)] + ['C:0,1,2']
+    else:
+        ops += [f'U:{alln}'] + [f'I:{k}' for k in range(n)] + [f"R0:2:{lst_(rec['tops'])}"]
+    return (f"HIST ns=0 ty={lst_(rec['ty'])} ca=p,o,p deps={';'.join(lst_(d) for d in rec['deps'])} fl={lst_([0] * n)} np=0:1 "
+            f"ops={'/'.join(ops)}")
+
+
+def rt_pattern_model(mo):
+    out = []
+    for seg in mo.split(' | '):
+        body, k = seg.rsplit(' K=', 1)
+        if body.startswith('ran'):
+            ex = body.split(' exec=')[1].split(' ')[0]
+            ld = ','.join(x.split(':')[0] for x in body.split(' loaded=')[1].split(',') if x)
+            out.append(f'exec={ex} loaded={ld} K={k}')
+        elif body.startswith('tasks'):
+            out.append('tasks ' + ','.join(x.split(':')[0] for x in body[6:].split(',') if x) + f' K={k}')
+        else:
+            out.append(f'{body} K={k}')
+    return out
+
+
+def rt_pattern_real(rec):
+    n = rec['n']
+    k1 = lst(rec['keys1'])
+    rows = rec['listed']
+    if isinstance(rows, str):
+        return [f"exec={lst(rec['exec1'])} loaded= K={k1}", rows]
+    out = [f"exec={lst(rec['exec1'])} loaded= K={k1}", f"tasks {lst(sk(r['k'] for r in rows))} K={k1}"]
+    cached = {r['k']: r['cached'] for r in rows}
+    out += [f'bool {int(cached.get(k) is True)} K={k1}' for k in range(n)]
+    if rec['case']['mode'] == 'run':
+        out.append(f"exec={lst(rec['exec2'])} loaded={lst(rec['loaded2'])} K={lst(rec['keys2'])}")
+        out.append(f"tasks {lst(rec['listed_again']) if isinstance(rec['listed_again'], list) else rec['listed_again']} K={lst(rec['keys2'])}")
+        out.append(f"unit K={lst(rec['keys3'])}")
+        out += [f"bool {int(b)} K={lst(rec['keys3'])}" for b in rec['cached3']]
+        out.append(f"tasks {lst(rec['listed_after']) if isinstance(rec['listed_after'], list) else rec['listed_after']} K={lst(rec['keys3'])}")
+    else:
+        out.append(f"unit K={lst(rec['keys3'])}")
+        out += [f"bool {int(b)} K={lst(rec['keys3'])}" for b in rec['cached3']]
+        out.append(f"exec={lst(rec['exec4'])} loaded= K={lst(rec['keys4'])}")
+    return out
+
+
+if __name__ == '__main__':
+    if len(sys.argv) == 4 and sys.argv[1] == '--rt':
+        sys.path.insert(0, HERE)
+        rt_worker(sys.argv[2], sys.argv[3])
